@@ -276,19 +276,28 @@ def recv_cfg_lit(cfg):
 
 def gen_streams_edge(rng, w):
     """one well-formed publisher over a loss-free FIFO channel (the hypotheses of Edge.edge_lossless): groups of
-    one id = its data parts then the heartbeat, ids strictly increasing (gaps allowed), 1-3 distinct visible topics
-    which may change from group to group"""
+    one id = its data parts then the heartbeat, ids strictly increasing (gaps allowed), 0-4 distinct topics which may
+    change from group to group, hidden ones ('_metrics': published, filtered out by the consumer's SUBSCRIBE "/")
+    and frames without any visible topic included"""
     K = rng.randint(2, 9)
     mid = rng.choice([0, 0, 0, 3, 40])
     sid = 10
     groups, st = [], []
     for _ in range(K):
-        tl = rng.sample(['main', 'a', 'b', 'x', 'y/z'], rng.randint(1, 3))
+        r = rng.random()
+        if r < 0.08:
+            tl = []
+        elif r < 0.16:
+            tl = rng.sample(['_metrics', '_h'], rng.randint(1, 2))
+        else:
+            tl = rng.sample(['main', 'a', 'b', 'x', 'y/z'], rng.randint(1, 3))
+            if rng.random() < 0.4:
+                tl.insert(rng.randrange(len(tl) + 1), rng.choice(['_metrics', '_h']))
         parts = []
         for t in tl:
             pay = w.new_pay(src=0, sid=sid, mid=mid, topic=t, topics=tl)
             parts.append((t, pay))
-            st.append(dict(wtopic='/' + t + '/', sid=sid, mid=mid, topics=tl, bal=0, pay=pay))
+            st.append(dict(wtopic=('' if t.startswith('_') else '/') + t + '/', sid=sid, mid=mid, topics=tl, bal=0, pay=pay))
         st.append(dict(wtopic='//', sid=sid, mid=mid, topics=tl, bal=0, pay=0))
         groups.append(((mid, sid), parts))
         mid += rng.choice([1, 1, 1, 2, 7])
@@ -363,7 +372,8 @@ def run_receiver_case(rng, budget=60, adversarial=False, edge=False):
         except ScriptEnd:
             pass
         w.close_last()
-        drained = not any(w.streams) and not any(s.inbox for s in w.subs) and not any('raised' in c for c in calls)
+        drained = (not any(w.streams) and not any(s.inbox for s in w.subs) and not any('raised' in c for c in calls)
+                   and all('ret' in c for c in calls))          # ... and the consumer is between calls
     return dict(cfg=cfg, items=w.items, calls=calls, prov=w.prov, groups=groups, drained=drained)
 
 
@@ -961,7 +971,7 @@ def edge_cases(run, n):
     cases = []
     for k in range(n):
         c = run_receiver_case(rng, budget=rng.choice([40, 80, 140]), edge=True)
-        pub = [[mid, [[t, p] for t, p in parts]] for (mid, _sid), parts in c['groups']]
+        pub = [[mid, [[t, p] for t, p in parts if not t.startswith('_')]] for (mid, _sid), parts in c['groups']]
         got = [[x['ret']['id'], [[t, p] for t, p in x['ret']['data'].items()]] for x in c['calls'] if x.get('ret')]
         summary = dict(cfg=c['cfg'], groups=pub, script=[it[3] for it in c['items']])
         if got != pub[:len(got)]:
